@@ -185,6 +185,7 @@ impl Exec {
                 self.ptr_to_handle.clear();
                 self.last_alloc = 0;
                 self.last_alloc_ok = false;
+                self.last_log_area = 0;
                 Some("ok".to_string())
             }
             "root" => {
@@ -303,6 +304,9 @@ impl Exec {
                     if addr != 0 && !(off <= ilen && n <= ilen - off) {
                         return Some(format!("s off={} len={} OUTSIDE-INPUT", off, n));
                     }
+                }
+                if let Ok(ValueRef::String { ptr: 0, .. }) = NanBox::from_bits(s).try_decode() {
+                    return None; // a null string pointer is never dereferenced by the harness
                 }
                 let v = api::Value::verif_from_bits(s);
                 Some(match v.as_string() {
